@@ -14,6 +14,40 @@ CXXFLAGS = ['-std=c++17', '-O1', '-g', '-fsanitize=address,undefined', '-fsaniti
 
 
 # class templates are replayed at the instantiation the library exports
+# how the native driver obtains a valid object of a class before overwriting its data members with the counterexample's values
+REPLAY_OBJECT = {
+    'Geodesic': 'Geodesic %s(6378137.0, 1 / 298.257223563);',
+    'GeodesicLine': 'GeodesicLine %s;',
+    'GeodesicLineExact': 'GeodesicLineExact %s;',
+    'GeodesicExact': 'GeodesicExact %s(6378137.0, 1 / 298.257223563);',
+    'PolygonAreaT': 'PolygonAreaT<Geodesic> %s(Geodesic::WGS84());',
+    'Accumulator': 'Accumulator<double> %s;',
+    'Geocentric': 'Geocentric %s(6378137.0, 1 / 298.257223563);',
+}
+TRACE_CTYPE = {'double': 'double', 'float': 'float', '_Bool': '_Bool', 'bool': '_Bool', 'unsigned int': 'unsigned', 'unsigned': 'unsigned', 'signed int': 'int', 'int': 'int',
+               'signed long int': 'long long', 'unsigned long int': 'unsigned long long', 'signed long long int': 'long long', 'unsigned long long int': 'unsigned long long',
+               'char': 'char', 'signed char': 'char', 'unsigned char': 'unsigned'}
+
+
+def _set_members(L, inp, prefix, objname):
+    """overwrite the data members of a natively constructed object with the values of the counterexample (members that the trace does not
+    mention keep the constructed, valid values)"""
+    n = 0
+    for key in sorted(inp):
+        if not key.startswith(prefix + '.'):
+            continue
+        path = key[len(prefix) + 1:]
+        if '$pad' in path or 'verif_opaque_' in path:
+            continue
+        ct = TRACE_CTYPE.get((inp[key].get('type') or '').replace('const ', '').strip())
+        if ct is None:
+            continue
+        path = re.sub(r'\[(\d+)l*\]', r'[\1]', path)
+        L.append('  VSET(%s.%s, %s);' % (objname, path, _lit(ct, inp[key])))
+        n += 1
+    return n
+
+
 CPP_CLASS = {'PolygonAreaT': 'PolygonAreaT<Geodesic>', 'coeff': 'SphericalEngine::coeff'}
 
 
@@ -132,6 +166,19 @@ def gen_driver(proj, r, f, fi, contract, strcap):
             L.append('static %s %s;' % (ctype.replace('_Bool', 'bool'), gname))
     rg_text = ' '.join(r.get('replay_ghost', []))
     unobservable = [g for g in capnames if not re.search(r'\b%s\s*=' % re.escape(g), rg_text)]
+    L.append('#include <type_traits>')
+    L.append('#define VSET(lv, val) do { auto* p_ = const_cast<std::remove_const<std::remove_reference<decltype(lv)>::type>::type*>(&(lv)); *p_ = (val); } while (0)')
+    # enumerators / integral constants of the class (and of the classes the job lists), visible unqualified as in the C translation unit
+    seen_c = set()
+    for ccls in [cls] + [c.lstrip('<') for c in r.get('const_classes', [])]:
+        try:
+            cci = proj.classinfo(ccls, 'double')
+        except Exception:
+            continue
+        for cn, cv in cci.consts.items():
+            if cv[0] == 'enum' and cn not in seen_c:
+                seen_c.add(cn)
+                L.append('static const unsigned %s = (unsigned)%s::%s;' % (cn, CPP_CLASS.get(ccls, ccls), cn))
     L.append('int main() {')
     for k in ('verif_ghost_idx', 'verif_ghost_idx2', 'verif_ghost_idx3', 'verif_ghost_idx4'):
         if k in inp:
@@ -142,9 +189,22 @@ def gen_driver(proj, r, f, fi, contract, strcap):
     call_args = []
     post = []
     if fi.is_method:
-        return None
+        if cls not in REPLAY_OBJECT:
+            return None
+        L.append('  ' + REPLAY_OBJECT[cls] % 'self_obj')
+        _set_members(L, inp, 'in_self', 'self_obj')
+        L.append('  auto* self = &self_obj;')
     for p in fi.params:
         n = 'in_' + p.name
+        if p.kind == 'obj_in' and 'struct ' in p.ctype:
+            ocls = p.ctype.replace('const', '').replace('*', '').replace('struct', '').strip()
+            if ocls not in REPLAY_OBJECT:
+                return None
+            L.append('  ' + REPLAY_OBJECT[ocls] % (p.name + '_obj'))
+            _set_members(L, inp, n, p.name + '_obj')
+            L.append('  auto* %s = &%s_obj;' % (p.name, p.name))
+            call_args.append(p.name + '_obj')
+            continue
         if p.kind == 'val':
             if n not in inp:
                 # not in the (sliced) trace: the value is irrelevant to the failure; use zero
@@ -211,6 +271,8 @@ def gen_driver(proj, r, f, fi, contract, strcap):
     # snapshots for __CPROVER_old
     ens = []
     for c in contract.clauses:
+        if (c[4].get('only') or '').startswith('replace'):
+            continue   # clauses that exist only for callers (ghost records, determinism): not obligations of this function
         txt = '\n'.join(c[2])
         for m in re.finditer(r'__CPROVER_ensures\s*\(', txt):
             e = X.match_close(txt, m.end() - 1)
@@ -247,7 +309,10 @@ def gen_driver(proj, r, f, fi, contract, strcap):
         ens2.append((cid, e))
     for name, inner in olds:
         L.append('  auto %s = (%s);' % (name, inner))
-    call = '%s::%s(%s)' % (CPP_CLASS.get(cls, cls), fi.qualname.split('::')[1], ', '.join(call_args))
+    mname = fi.qualname.split('::')[1]
+    if fi.is_method and mname == cls.replace('PolygonAreaT', 'PolygonAreaT'):
+        return None   # constructors are not replayed (the object is what is being built)
+    call = ('self_obj.%s(%s)' % (mname, ', '.join(call_args))) if fi.is_method else '%s::%s(%s)' % (CPP_CLASS.get(cls, cls), mname, ', '.join(call_args))
     if fi.ret_ctype != 'void':
         L.append('  %s ret_ = %s;' % (fi.ret_ctype.replace('_Bool', 'bool'), '0'))
         call = 'ret_ = ' + call
